@@ -426,6 +426,21 @@ def rule_index_capture(run):
     # definite-assignment pass (a stored reference v[idx] used in another branch / state would read a stale index)
     ok = isinstance(temp_v, ast.Call) and src(temp_v.func).startswith("Temporary[") and not temp_v.args and not temp_v.keywords
     run.ob(ok, "TypeQualifier.__getitem_replacement", file=tq.rel, line=r.lineno, detail="fresh-temporary", expected="index_temp = Temporary[index.type]()", found=src(temp_v) if temp_v else "?")
+    # every way out of the run-time-index branch is that access: a named Signal/Variable used as the index
+    # directly (no capture) would make a stored reference follow later writes of the index
+    for other in ast.walk(f.node):
+        if not isinstance(other, ast.Return) or other is r:
+            continue
+        child, under = other, False
+        for anc in tq.parents.ancestors(other):
+            if isinstance(anc, ast.If) and child in anc.body and "TypeQualifier" in src(anc.test) and "isinstance" in src(anc.test):
+                under = True
+            child = anc
+            if anc is f.node:
+                break
+        if under:
+            run.ob(False, "TypeQualifier.__getitem_replacement", file=tq.rel, line=other.lineno, detail="uncaptured-index",
+                   expected="a run-time index is always captured in a fresh temporary (_IntrinsicElemAccess)", found=src(other)[:90])
     obj_v = assigns.get(obj_n)
     ok = isinstance(obj_v, ast.Call) and dotted(obj_v.func) == "self.__getitem__" and dotted(obj_v.args[0]) == temp_n
     run.ob(ok, "TypeQualifier.__getitem_replacement", file=tq.rel, line=r.lineno, detail="reference-uses-temporary",
